@@ -12,7 +12,7 @@ class NeedAtom(Exception):
         self.atom = atom
 
 
-UNINTERPRETED = ("obj", "proj", "call", "discr", "loopvar", "const", "undef", "upd", "ovf", "fnptr")
+UNINTERPRETED = ("obj", "proj", "call", "discr", "loopvar", "const", "undef", "upd", "ovf", "fnptr", "moved")
 
 
 def atoms_of(t, acc=None):
